@@ -260,6 +260,24 @@ def type_tag_of(v):
     return "?"
 
 
+def escapes(trace, obj):
+    """True when the tracked container `obj` was handed to a call that stayed symbolic (the callee may have modified it: the recorded
+    stores are then not the whole story)."""
+    def holds(v, depth=0):
+        if v is obj:
+            return True
+        if depth < 3 and isinstance(v, (list, tuple)):
+            return any(holds(x, depth + 1) for x in v)
+        if depth < 3 and isinstance(v, dict):
+            return any(holds(x, depth + 1) for x in v.values())
+        return False
+    for t in trace:
+        if isinstance(t, Sym) and t.fn not in ("setitem", "augitem", "setattr"):
+            if any(holds(a) for a in t.args) or any(holds(a) for a in t.kw.values()) or (t.recv is obj and t.attr not in ("[]",) and not str(t.attr).startswith(".")):
+                return True
+    return False
+
+
 def canon_index(v):
     """Canonical text of a folded index value."""
     def one(x):
@@ -818,6 +836,19 @@ class Folder:
                     if all(not isinstance(x, (Sym, Opaque, Obj)) for x in list(args) + list(kw.values())) and getattr(t, "cls", None) is None:
                         sub = Folder()
                         return sub.call(t.node, args, kw)
+                    if getattr(t, "cls", None) is None and isinstance(f, ast.Name) and t.module is cf.module and (t.name.startswith("_") or self.fold_all_methods) \
+                            and len(self.func_stack) < 6 and t.node not in self.func_stack:
+                        # a private helper of the same module (typically an extracted piece of the function being folded): folded on the
+                        # symbolic arguments, its recorded stores and calls join this fold's
+                        sub = Folder(symbolic=True, max_steps=20000)
+                        sub.overrides = getattr(self, "overrides", None)
+                        sub.fold_all_methods = self.fold_all_methods
+                        sub.func_stack = list(self.func_stack) + [t.node]
+                        try:
+                            r = sub.call(t.node, args, kw)
+                        finally:
+                            self.trace.extend(sub.trace)
+                        return r
                     if getattr(t, "cls", None) is not None and isinstance(f, ast.Attribute) and t.params and t.params[0] in ("self", "cls") \
                             and all(not isinstance(x, Sym) for x in list(args) + list(kw.values())):
                         recv = self.ev(f.value, env)
